@@ -25,6 +25,7 @@ import (
 const (
 	vrtPath      = "github.com/mandykoh/prism/zverif/vrt"
 	vsyncPath    = "github.com/mandykoh/prism/zverif/vsync"
+	vatomicPath  = "github.com/mandykoh/prism/zverif/vatomic"
 	parallelPath = "github.com/mandykoh/prism/zverif/parallel"
 )
 
@@ -40,7 +41,9 @@ type Stats struct {
 	ImageCallHooks int
 	GoStatements   int
 	SyncImports    int
+	AtomicImports  int
 	Uninstrumented []string // constructs the rewriter saw but could not hook
+	Channels       []string // channel operations in instrumented packages (not modelled)
 	ResetPackages  []string
 }
 
@@ -409,7 +412,9 @@ func Generate(repoDir, outDir, shimDir string) (overlayPath string, st Stats, er
 					case *ast.Ident:
 						if v, ok := info.Uses[x].(*types.Var); ok && !v.IsField() {
 							if v.Parent() == v.Pkg().Scope() {
-								if !inRanges(x.Pos(), inits) {
+								// sync and sync/atomic objects (and arrays of them) are accessed
+								// through their methods, which are the hooks
+								if !inRanges(x.Pos(), inits) && !isSyncType(v.Type()) {
 									globals[v] = true
 								}
 							} else {
@@ -442,12 +447,10 @@ func Generate(repoDir, outDir, shimDir string) (overlayPath string, st Stats, er
 					if x.Op == token.AND {
 						markAssign(x.X)
 					}
-				case *ast.SelectorExpr:
-					// method call on a package-level sync object outside init
-					if id, ok := x.X.(*ast.Ident); ok {
-						if v, ok := info.Uses[id].(*types.Var); ok && !v.IsField() && v.Parent() == v.Pkg().Scope() && isSyncType(v.Type()) && !inRanges(x.Pos(), inits) {
-							syncVarsUsed[v] = true
-						}
+				case *ast.Ident:
+					// any use of a package-level sync / sync/atomic object outside init: reset it between executions
+					if v, ok := info.Uses[x].(*types.Var); ok && !v.IsField() && v.Pkg() != nil && v.Parent() == v.Pkg().Scope() && isSyncType(v.Type()) && !inRanges(x.Pos(), inits) {
+						syncVarsUsed[v] = true
 					}
 				}
 				return true
@@ -513,9 +516,39 @@ func Generate(repoDir, outDir, shimDir string) (overlayPath string, st Stats, er
 					}
 				}
 				if im.Path.Value == `"sync/atomic"` {
-					st.Uninstrumented = append(st.Uninstrumented, fmt.Sprintf("%s: sync/atomic is not modelled", p.Fset.Position(im.Pos())))
+					im.Path.Value = fmt.Sprintf("%q", vatomicPath)
+					if im.Name == nil {
+						im.Name = ast.NewIdent("atomic")
+					}
+					st.AtomicImports++
 				}
 			}
+			// channel operations are not modelled: a goroutine blocked on a channel
+			// looks runnable to the scheduler. Record them; the check then skips
+			// interleaving exploration instead of hanging or reporting nonsense.
+			ast.Inspect(f, func(m ast.Node) bool {
+				pos := token.NoPos
+				switch x := m.(type) {
+				case *ast.SendStmt:
+					pos = x.Pos()
+				case *ast.SelectStmt:
+					pos = x.Pos()
+				case *ast.UnaryExpr:
+					if x.Op == token.ARROW {
+						pos = x.Pos()
+					}
+				case *ast.RangeStmt:
+					if tv, ok := p.TypesInfo.Types[x.X]; ok {
+						if _, isChan := tv.Type.Underlying().(*types.Chan); isChan {
+							pos = x.Pos()
+						}
+					}
+				}
+				if pos != token.NoPos {
+					st.Channels = append(st.Channels, p.Fset.Position(pos).String())
+				}
+				return true
+			})
 			for _, n := range []string{"Cond", "Map"} {
 				ast.Inspect(f, func(m ast.Node) bool {
 					if sel, ok := m.(*ast.SelectorExpr); ok && sel.Sel.Name == n {
@@ -578,6 +611,8 @@ func Generate(repoDir, outDir, shimDir string) (overlayPath string, st Stats, er
 												if pn, ok := p.TypesInfo.Uses[id].(*types.PkgName); ok {
 													if pn.Imported().Path() == "sync" {
 														needImports[vsyncPath] = id.Name
+													} else if pn.Imported().Path() == "sync/atomic" {
+														needImports[vatomicPath] = id.Name
 													} else {
 														needImports[pn.Imported().Path()] = id.Name
 													}
@@ -601,6 +636,10 @@ func Generate(repoDir, outDir, shimDir string) (overlayPath string, st Stats, er
 						if q.Path() == "sync" {
 							needImports[vsyncPath] = "sync"
 							return "sync"
+						}
+						if q.Path() == "sync/atomic" {
+							needImports[vatomicPath] = "atomic"
+							return "atomic"
 						}
 						needImports[q.Path()] = q.Name()
 						return q.Name()
@@ -658,6 +697,9 @@ func Generate(repoDir, outDir, shimDir string) (overlayPath string, st Stats, er
 	if err := addDir(filepath.Join(shimDir, "_shim", "vsync"), filepath.Join(repoDir, "zverif", "vsync")); err != nil {
 		return "", st, err
 	}
+	if err := addDir(filepath.Join(shimDir, "_shim", "vatomic"), filepath.Join(repoDir, "zverif", "vatomic")); err != nil {
+		return "", st, err
+	}
 	if err := addDir(filepath.Join(shimDir, "_harness"), filepath.Join(repoDir, "zverif", "harness")); err != nil {
 		return "", st, err
 	}
@@ -689,6 +731,9 @@ func Generate(repoDir, outDir, shimDir string) (overlayPath string, st Stats, er
 }
 
 func isSyncType(t types.Type) bool {
+	if a, ok := t.(*types.Array); ok {
+		return isSyncType(a.Elem())
+	}
 	n, ok := t.(*types.Named)
-	return ok && n.Obj().Pkg() != nil && n.Obj().Pkg().Path() == "sync"
+	return ok && n.Obj().Pkg() != nil && (n.Obj().Pkg().Path() == "sync" || n.Obj().Pkg().Path() == "sync/atomic")
 }
